@@ -242,6 +242,7 @@ for _p, _t in {
  "C02": "Round j: Block::merge leaves the merged block at the least-squares stationary point of all its variables (symbolic, scaled).",
  "C03": "Round k: a polygon's offset bounding box encloses it for every vertex order; naive visibility of a shape covers connector end points.",
  "C10": "Round k: crossing flags are per connector pair in buildOrthogonalNudgingOrderInfo; CmpLineOrder decides by the fixed segment before the bend order.",
+ "C17": "Round l: the ideal length is used as given (no clamping of valid fractional values); the shortest-path routines keep no state between calls.",
  "C14": "Round j: chain anchor directions are looked up for the ordered pair the fall-back uses; the configuration after two consecutive bends composes the single-bend configurations.",
 }.items():
     CHECKS[_p]["text"] = CHECKS[_p]["text"].rstrip() + " " + _t
